@@ -51,7 +51,8 @@ where
     }
 
     fn size_hint(&self) -> (usize, Option<usize>) {
-        let n = (self.pointers.len() - K::I::one()).into();
+        // number of slices still to come (total minus those already yielded)
+        let n = (self.pointers.len() - K::I::one() - self.index.clone()).into();
         (n, Some(n)) // exact size is known
     }
 }
@@ -63,7 +64,7 @@ where
     K::I: Into<usize>,
 {
     fn len(&self) -> usize {
-        (self.pointers.len() - K::I::one()).into()
+        (self.pointers.len() - K::I::one() - self.index.clone()).into()
     }
 }
 
